@@ -10,7 +10,7 @@ import OnosVerif.Value.Model
 namespace OnosVerif.Value
 
 /-- a supported scalar within its wire type: `IntVal` is an int64, `UintVal` a uint64,
-    a decimal has int64 digits and a precision that fits the stored `uint8`, a float is a
+    a decimal has int64 digits and a precision of at most 18 (YANG decimal64; a larger one is refused), a float is a
     32-bit pattern that is not a NaN. -/
 def scalarOK : Scalar → Bool
   | .str _ => true
@@ -19,7 +19,7 @@ def scalarOK : Scalar → Bool
   | .uint n => isUint64 n
   | .bool _ => true
   | .bytes _ => true
-  | .dec d p => isInt64 d && decide (p < 256)
+  | .dec d p => isInt64 d && decide (p ≤ 18)
   | .float f => decide (f < two32) && !isNaN32 f
   | .decNil => false
   | .anyNil => false
@@ -117,7 +117,7 @@ def leafListOK (es : List Scalar) : Bool :=
     | none => false
   | .dec _ p :: _ =>
     match collectDecs p es with
-    | some ds => ds.all isInt64 && decide (p < 256)
+    | some ds => ds.all isInt64 && decide (p ≤ 18)
     | none => false
   | .float _ :: _ =>
     match collectFloats es with
